@@ -26,6 +26,11 @@ RULE = ("full grid: command {onboard, unlock, changepin, pubkeys} x device state
         "written from the statement, in both directions (no destructive APDU without the "
         "precondition; precondition => carried out), and the public-key files with the device's "
         "keys. distinct = grid cells; non-trivial = all")
+RULE_ADDED = (
+              'Also: non-ASCII and blank-padded PINs; 1..5 refused PINs typed before giving in; a '
+              'wrong echo in the header bytes; a third of the cells through adm_ledger / adm_sgx '
+              'main() ')
+RULE = RULE + " " + RULE_ADDED.strip()
 ASSUMPTIONS = [
     "simulated devices (pv/simdev) trusted; operator input is scripted, an exhausted script "
     "ends the command (the real tool would keep prompting)",
